@@ -21,6 +21,7 @@ from ..cfg import CFG, solve, subnodes
 from ..constprop import ConstFlow, truth, is_none
 from ..struct import parent_map
 from .. import tables as T
+from ..consteval import ClassTok, FuncTok
 
 PROP = 'C15'
 
@@ -275,6 +276,7 @@ def run(ctx):
 
 # ---- R15.4 -----------------------------------------------------------------------------------------------------------
     check_replace_unmakes(ctx)
+    check_raw_child_drops(ctx, F)
 
 
 def check_replace_unmakes(ctx):
@@ -321,3 +323,59 @@ def check_replace_unmakes(ctx):
                           'the old value is overwritten on a path that skipped _unmake_fst_tree() although `unmake` was requested: the replaced '
                           'node keeps `a.f` / `f.a` and still looks alive to a walk that holds it', x.lineno,
                           sample={'function': fi.key, 'write': norm(x, 60)})
+
+
+# ---- R15.5 -----------------------------------------------------------------------------------------------------------
+
+def check_raw_child_drops(ctx, F):
+    """A put handler knows the class of its `self` from the table row(s) that register it.  Storing `None` straight into a field of
+    `self.a` that holds a *node* for that class drops the child without unmaking it: the detached subtree keeps its `.f` / `.a` links, passes
+    walk()'s liveness tests and is yielded (or its pending entry on a walk stack is) although it is gone from the tree.  Such a field has to
+    be emptied through the kernel (`_put_one(None, ...)`, `_set_field`) or after `_unmake_fst_tree()` of the old value.  Identifier /
+    constant fields (`ExceptHandler.name`, `MatchAs.name`) are plain values and may be stored directly."""
+    from ..cfg import CFG, subnodes
+    ctx.rule('R15.5', 'a put handler does not empty a node-valued field of its own node by a raw `= None` store (the child would stay linked)', 2)
+    tabs = [('fst_put_one', '_PUT_ONE_HANDLERS'), ('fst_put_slice', '_PUT_SLICE_HANDLERS')]
+    by_func = {}
+    for mod, tn in tabs:
+        for k, row in ctx.ev.get(mod, tn).items():
+            cls = k[0] if isinstance(k, tuple) else None
+            toks = [t for t in (row if isinstance(row, (tuple, list)) else [row]) if isinstance(t, FuncTok)]
+            if isinstance(cls, ClassTok):
+                for t in toks:
+                    by_func.setdefault(t.key, (t, set()))[1].add(cls)
+    n = 0
+    for key, (tok, classes) in by_func.items():
+        fields = [dict(F.get(c, [])) for c in classes]
+        for fi in ctx.repo.mod(tok.module).func(tok.qualname):
+            if isinstance(fi.node, ast.Lambda):
+                continue
+            aliases = {'self.a'} | {norm(x.targets[0]) for x in walk_no_nested(fi.node) if isinstance(x, ast.Assign) and len(x.targets) == 1 and
+                                    isinstance(x.targets[0], ast.Name) and norm(x.value) == 'self.a'} | \
+                {x.target.id for x in walk_no_nested(fi.node) if isinstance(x, ast.NamedExpr) and norm(x.value) == 'self.a'}
+            cfg = None
+            for x in walk_no_nested(fi.node):
+                if not (isinstance(x, ast.Assign) and isinstance(x.value, ast.Constant) and x.value.value is None):
+                    continue
+                for t in x.targets:
+                    if not (isinstance(t, ast.Attribute) and norm(t.value) in aliases):
+                        continue
+                    types = [fd.get(t.attr) for fd in fields]
+                    if not types or any(ty is None for ty in types):
+                        continue                    # not a field of (all of) the registered classes
+                    n += 1
+                    node_valued = all(T.is_ast_type(ty.rstrip('?*')) and t.attr not in ('ctx',) for ty in types)
+                    ok = not node_valued
+                    if node_valued:
+                        # allowed when every path to the store has unmade the old value
+                        cfg = cfg or CFG(fi.node)
+                        um = {nd.id for nd in cfg.nodes if any(isinstance(y, ast.Call) and call_name(y) in ('_unmake_fst_tree', '_set_field')
+                                                              for y in subnodes(cfg, nd))}
+                        st = [nd for nd in cfg.nodes if any(y is x for y in subnodes(cfg, nd))]
+                        ok = bool(st) and all(nd.id not in cfg.reachable(cfg.entry, lambda n_, lab, s_: lab != 'exc', stop=um) for nd in st)
+                    ctx.check('R15.5', ok, fi.module, fi.qualname, norm(x, 60),
+                              f'`{norm(t)}` holds a node for {sorted(c.name for c in classes)}; storing None into it drops the child without unmaking it: the '
+                              f'detached subtree still looks alive to a running walk() and is yielded', x.lineno,
+                              sample={'handler': fi.key, 'store': norm(x, 60), 'classes': sorted(c.name for c in classes)})
+    if n < 2:
+        raise AnalysisError(f'only {n} raw None stores into own fields found in the put handlers')
